@@ -77,5 +77,10 @@ def le (a b : Delta) : Bool := cmp a b != 1
 def gt (a b : Delta) : Bool := cmp a b == 1
 def ge (a b : Delta) : Bool := cmp a b != -1
 
+/-- `impl Deserialize for TimeDelta` (`mod serde` of src/time_delta.rs), after serde has produced the
+`(i64, i32)` tuple: `TimeDelta::new(secs, nanos as u32).ok_or(…)` — the only constructor that takes the
+nanosecond field as a signed number; `none` is the `Err("TimeDelta out of bounds")` -/
+def deserialize (secs nanos : Int) : Option Delta := new secs (asU32 nanos)
+
 end Delta
 end Chrono.M
